@@ -211,23 +211,32 @@ def build_proof(proof, tmp, log):
         run(["goto-cc", "-c"] + defs + renames + incs + includes + [f, "-o", o], "goto-cc -c " + os.path.basename(f))
         objs.append(o)
     # stage 2: link with the stubs (allocator model etc., compiled without the renames) and the twin references
-    lib1 = os.path.join(tmp, "lib1.gb")
-    lib2 = os.path.join(tmp, "lib2.gb")
     twin_stub = os.path.join(tmp, "twin_refs.c")
     with open(twin_stub, "w") as f:
         f.write("/* generated: makes the declaration-only twins part of the library-stage symbol table */\n")
         for i, t in enumerate(twins.values()):
             f.write("void *verif_twin_ref_%d(void) { return (void*)&%s; }\n" % (i, t))
     trap = [os.path.join(VERIF, "stubs", "libc_trap.c")] if libs else []
-    run(["goto-cc"] + defs + incs + includes + objs + extra + trap + [twin_stub, "-o", lib1], "goto-cc (library stage)")
+    # stage 2: one link of library objects, stubs (compiled without the renames), twin references and harness
     if twins:
+        a0 = os.path.join(tmp, "a0.gb")
+        a1 = os.path.join(tmp, "a1.gb")
+        run(["goto-cc"] + defs + incs + includes + ["--function", entry] + objs + extra + trap + [twin_stub, harness, "-o", a0],
+            "goto-cc (link)")
+        # stage 3 (recursion): every call of f inside the binary goes to the induction-hypothesis twin f__child;
+        # the harness calls f__top, which is then bound to the real f (two passes, so the top-level call is
+        # the only one that reaches the real function)
         rc_args = []
         for k, v in twins.items():
             rc_args += ["--replace-calls", "%s:%s" % (k, v)]
-        out = run(["goto-instrument"] + rc_args + [lib1, lib2], "goto-instrument --replace-calls")
+        out = run(["goto-instrument"] + rc_args + [a0, a1], "goto-instrument --replace-calls (children)")
+        rc_args = []
+        for k in twins:
+            rc_args += ["--replace-calls", "%s__top:%s" % (k, k)]
+        out = run(["goto-instrument"] + rc_args + [a1, a], "goto-instrument --replace-calls (top)")
     else:
-        lib2 = lib1
-    run(["goto-cc"] + defs + incs + includes + ["--function", entry, harness, lib2, "-o", a], "goto-cc (harness link)")
+        run(["goto-cc"] + defs + incs + includes + ["--function", entry] + objs + extra + trap + [twin_stub, harness, "-o", a],
+            "goto-cc (link)")
 
     if proof.get("loops"):
         want = proof.get("loop_fingerprint")
